@@ -34,7 +34,19 @@ def unit_table(prog):
                     q = strs_in(G.describe(b, f["quantity"]), [])
                     sc = op_const(f["scale"])
                     dim = G.describe(b, f["dimensions"])
-                    units[name] = {"ids": ids, "quantity": q[0] if q else None, "scale": sc.get("float") if sc else None, "has_dim": not (dim.kind == "agg" and dim.v == "None"), "where": b.where()}
+                    off = op_const(f["offset"]) if "offset" in f else None
+                    dims = None
+                    if dim.kind == "agg" and dim.v == "Some" and dim.args and dim.args[0].kind == "agg" and all(a.kind == "const" for a in dim.args[0].args):
+                        dims = tuple((a.v - 256 if a.v > 127 else a.v) for a in dim.args[0].args)
+
+                    def fl(c):
+                        try:
+                            return float(c.get("float")) if c and c.get("float") is not None else None
+                        except (TypeError, ValueError):
+                            return None
+
+                    units[name] = {"ids": ids, "quantity": q[0] if q else None, "scale": sc.get("float") if sc else None, "scale_f": fl(sc), "offset_f": fl(off), "dims": dims,
+                                   "has_dim": not (dim.kind == "agg" and dim.v == "None"), "where": b.where()}
     return units
 
 
